@@ -21,16 +21,30 @@ from lib import common
 from lib.common import enc_list, dec_list
 
 DBS = {11: "DB1", 12: "DB2"}
-SCHEMAS = {21: "S1", 22: "S2"}
-OBJS = {31: "T1", 32: "T2", 33: "T3", 34: "T4", 35: "T5"}
+SCHEMAS = {21: "S1", 22: "S2", 23: "sq"}
+OBJS = {31: "T1", 32: "T2", 33: "T3", 34: "T4", 35: "T5", 38: "tq"}
 PKOBJS = {36: "T6", 37: "T7"}   # tables declared with a PRIMARY KEY live under their own names: only CREATE [OR REPLACE], DROP, COMMENT, ADD COLUMN touch them
-COLS = {41: "A", 42: "B", 43: "C", 44: "D", 45: "E", 46: "F"}
+COLS = {41: "A", 42: "B", 43: "C", 44: "D", 45: "E", 46: "F", 47: "cq"}
+QUOTED = {23, 38, 47}   # lower-case names: created and referenced in double quotes only, reported exactly as written
+COMMENT_TEXT = {**{i: f"c{i}" for i in range(1, 10)}, 10: "", 11: "  "}   # incl. the empty and a whitespace-only comment
+COMMENT_ID = {v: k for k, v in COMMENT_TEXT.items()}
 NAME = {**DBS, **SCHEMAS, **OBJS, **PKOBJS, **COLS}
 ID = {v: k for k, v in NAME.items()}
 DEFAULT_LEN = 16777216
+
+
+def Q(i: int) -> str:
+    """the identifier as it is written in SQL"""
+    return '"' + NAME[i] + '"' if i in QUOTED else NAME[i]
+
+
+def pick_comment(rnd) -> int:
+    return rnd.choice([10, 11]) if rnd.random() < 0.2 else rnd.randint(1, 9)
 KEY_ACCOUNT = "C09/account-scope-lists-internal-objects"
 KEY_INFO_TABLES = "C09/information-schema-tables-lists-internal-and-other-databases"
 KEY_CROSS_DB = "C09/describe-other-database-loses-lengths"
+KEY_XDB_COMMENT = "C09/information-schema-tables-other-database-loses-comments"
+KEY_STALE_NONTEXT = "C09/stale-length-shown-for-non-text-column"
 KEY_INE = "C09/create-if-not-exists-overwrites-metadata"
 KEY_PK_SCOPE = "C09/show-primary-keys-account-database-scope-unsupported"
 KEY_PK_TABLE = "C09/show-primary-keys-in-table-ignores-schema"
@@ -70,8 +84,8 @@ def cast_sql(rnd, t: str) -> str:
 def ctas_casts(rnd, cols) -> str:
     """the query of a CTAS whose columns are sized casts: plain, parenthesised, or a set operation of such selects
     (extract_text_length records the lengths of the casts; a CTE-wrapped query would hide them: C09/length-lost-on-ctas)"""
-    first = "select " + ", ".join(f"{cast_sql(rnd, t)} as {NAME[c]}" for c, t in cols)
-    other = "select " + ", ".join(f"{cast_sql(rnd, t)}" + (f" as {NAME[c]}" if rnd.random() < 0.5 else "") for c, t in cols)
+    first = "select " + ", ".join(f"{cast_sql(rnd, t)} as {Q(c)}" for c, t in cols)
+    other = "select " + ", ".join(f"{cast_sql(rnd, t)}" + (f" as {Q(c)}" if rnd.random() < 0.5 else "") for c, t in cols)
     form = rnd.choice(["plain", "paren", "union all", "union", "intersect", "except", "union all"])
     if form == "plain":
         return first
@@ -86,7 +100,7 @@ def key_str(k) -> str:
 
 def fq(rnd, k, home=21) -> str:
     """render a key; the issuing connection is in database k[0], schema S1"""
-    d, s, n = (NAME[x] for x in k)
+    d, s, n = (Q(x) for x in k)
     r = rnd.random()
     if k[1] == home and r < 0.4:
         return n
@@ -141,10 +155,10 @@ class Gen:
                 cols = self.new_cols(r.randint(1, 3))
                 pkc = cols[0][0]
                 rep_ = k in self.pk or r.random() < 0.2
-                comment = r.randint(1, 9) if r.random() < 0.3 else None
-                coldefs = [f"{NAME[c]} {ty_sql(r, t)}" + (" primary key" if c == pkc else "") for c, t in cols]
+                comment = pick_comment(r) if r.random() < 0.3 else None
+                coldefs = [f"{Q(c)} {ty_sql(r, t)}" + (" primary key" if c == pkc else "") for c, t in cols]
                 r.shuffle(coldefs) if False else None
-                sql = f"create {'or replace ' if rep_ else ''}table {self.fq(k)} ({', '.join(coldefs)})" + (f" comment = 'c{comment}'" if comment else "")
+                sql = f"create {'or replace ' if rep_ else ''}table {self.fq(k)} ({', '.join(coldefs)})" + (f" comment = '{COMMENT_TEXT[comment]}'" if comment else "")
                 self.pk[k] = [c for c, _ in cols]
                 if comment:
                     self.commented[k] = len(self.commented) + max(self.commented.values(), default=0) + 1
@@ -154,18 +168,18 @@ class Gen:
                 self.pk.pop(k)
                 return {"op": f"dt,{key_str(k)}", "sql": f"drop table {self.fq(k)}", "db": k[0], "touch": [k]}
             if sub == "comment":
-                c = r.randint(1, 9)
+                c = pick_comment(r)
                 self.commented[k] = len(self.commented) + max(self.commented.values(), default=0) + 1
-                return {"op": f"sc,{key_str(k)},{c}", "sql": f"comment on table {self.fq(k)} is 'c{c}'", "db": k[0], "touch": [k]}
+                return {"op": f"sc,{key_str(k)},{c}", "sql": f"comment on table {self.fq(k)} is '{COMMENT_TEXT[c]}'", "db": k[0], "touch": [k]}
             c, t = r.choice(list(COLS)), r.choice(TYPES)
             if c not in self.pk[k]:
                 self.pk[k].append(c)
-            return {"op": f"ac,{key_str(k)},{c}:{t}", "sql": f"alter table {self.fq(k)} add column {NAME[c]} {ty_sql(r, t)}", "db": k[0], "touch": [k]}
+            return {"op": f"ac,{key_str(k)},{c}:{t}", "sql": f"alter table {self.fq(k)} add column {Q(c)} {ty_sql(r, t)}", "db": k[0], "touch": [k]}
         if kind == "use":    # USE SCHEMA: later one-part names of that connection refer to the new schema; no metadata effect
             d = r.choice(list(DBS))
             sc = r.choice(list(SCHEMAS))
             self.home[d] = sc
-            return {"op": "nop", "sql": f"use schema {NAME[sc] if r.random() < 0.5 else NAME[d] + '.' + NAME[sc]}", "db": d, "touch": self.noise_touch(d)}
+            return {"op": "nop", "sql": f"use schema {Q(sc) if r.random() < 0.5 else NAME[d] + '.' + Q(sc)}", "db": d, "touch": self.noise_touch(d)}
         if kind == "nop":    # statements fakesnow turns into its success no-op
             d = r.choice(list(DBS))
             live = [k for k, (v, _) in self.shadow.items() if not v and k[0] == d]
@@ -182,13 +196,13 @@ class Gen:
         if kind == "ct":
             k = self.pick_key(live=False) if r.random() < 0.75 else self.pick_key()
             cols = self.new_cols(r.randint(1, 4))
-            comment = r.randint(1, 9) if r.random() < 0.45 else None
+            comment = pick_comment(r) if r.random() < 0.45 else None
             rep = r.random() < 0.3
             if comment is None and r.random() < 0.35:
                 sql = f"create {'or replace ' if rep else ''}table {self.fq(k)} as " + ctas_casts(r, cols)
             else:
-                sql = (f"create {'or replace ' if rep else ''}table {self.fq(k)} (" + ", ".join(f"{NAME[c]} {ty_sql(r, t)}" for c, t in cols) + ")"
-                       + (f" comment = 'c{comment}'" if comment else ""))
+                sql = (f"create {'or replace ' if rep else ''}table {self.fq(k)} (" + ", ".join(f"{Q(c)} {ty_sql(r, t)}" for c, t in cols) + ")"
+                       + (f" comment = '{COMMENT_TEXT[comment]}'" if comment else ""))
             if comment:
                 self.commented[k] = len(self.commented) + max(self.commented.values(), default=0) + 1
             self.shadow[k] = (False, [c for c, _ in cols])
@@ -207,20 +221,20 @@ class Gen:
                 return {"op": f"cl,{key_str(k)},{key_str(src)},{int(rep)}", "sql": f"create {'or replace ' if rep else ''}table {self.fq(k)} clone {self.fq(src)}", "db": k[0], "touch": [k]}
             what = "table" if kind == "cs" else "view"
             return {"op": f"{kind},{key_str(k)},{key_str(src)},{'/'.join(map(str, sel))},{int(rep)}",
-                    "sql": f"create {'or replace ' if rep else ''}{what} {self.fq(k)} as select {', '.join(NAME[c] for c in sel)} from {self.fq(src)}", "db": k[0], "touch": [k]}
+                    "sql": f"create {'or replace ' if rep else ''}{what} {self.fq(k)} as select {', '.join(Q(c) for c in sel)} from {self.fq(src)}", "db": k[0], "touch": [k]}
         if kind == "ac":
             k = self.pick_key(live=True, view=False)
             c, t = r.choice(list(COLS)), r.choice(TYPES)
             if k in self.shadow and c not in self.shadow[k][1]:
                 self.shadow[k][1].append(c)
-            return {"op": f"ac,{key_str(k)},{c}:{t}", "sql": f"alter table {self.fq(k)} add column {NAME[c]} {ty_sql(r, t)}", "db": k[0], "touch": [k]}
+            return {"op": f"ac,{key_str(k)},{c}:{t}", "sql": f"alter table {self.fq(k)} add column {Q(c)} {ty_sql(r, t)}", "db": k[0], "touch": [k]}
         if kind == "dc":
             k = self.pick_key(live=True, view=False)
             cols = self.shadow.get(k, (False, []))[1]
             c = r.choice(cols) if cols and r.random() < 0.85 else r.choice(list(COLS))
             if c in cols and len(cols) > 1:
                 cols.remove(c)
-            return {"op": f"dc,{key_str(k)},{c}", "sql": f"alter table {self.fq(k)} drop column {NAME[c]}", "db": k[0], "touch": [k]}
+            return {"op": f"dc,{key_str(k)},{c}", "sql": f"alter table {self.fq(k)} drop column {Q(c)}", "db": k[0], "touch": [k]}
         if kind == "rc":
             k = self.pick_key(live=True, view=False)
             cols = self.shadow.get(k, (False, []))[1]
@@ -228,18 +242,18 @@ class Gen:
             b = r.choice(list(COLS))
             if a in cols and b not in cols:
                 cols[cols.index(a)] = b
-            return {"op": f"rc,{key_str(k)},{a},{b}", "sql": f"alter table {self.fq(k)} rename column {NAME[a]} to {NAME[b]}", "db": k[0], "touch": [k]}
+            return {"op": f"rc,{key_str(k)},{a},{b}", "sql": f"alter table {self.fq(k)} rename column {Q(a)} to {Q(b)}", "db": k[0], "touch": [k]}
         if kind == "rt":
             k = self.pick_key(live=True, view=False)
             n = r.choice(list(OBJS))
             nk = (k[0], k[1], n)
             if k in self.shadow and nk not in self.shadow:
                 self.shadow[nk] = self.shadow.pop(k)
-            return {"op": f"rt,{key_str(k)},{n}", "sql": f"alter table {self.fq(k)} rename to {NAME[n]}", "db": k[0], "touch": [k, nk]}
+            return {"op": f"rt,{key_str(k)},{n}", "sql": f"alter table {self.fq(k)} rename to {Q(n)}", "db": k[0], "touch": [k, nk]}
         if kind == "sc":
             k = self.pick_key(live=True, view=False) if r.random() < 0.93 else self.pick_key()
-            c = r.randint(1, 9)
-            sql = f"comment on table {self.fq(k)} is 'c{c}'" if r.random() < 0.5 else f"alter table {self.fq(k)} set comment = 'c{c}'"
+            c = pick_comment(r)
+            sql = f"comment on table {self.fq(k)} is '{COMMENT_TEXT[c]}'" if r.random() < 0.5 else f"alter table {self.fq(k)} set comment = '{COMMENT_TEXT[c]}'"
             self.commented[k] = len(self.commented) + max(self.commented.values(), default=0) + 1
             return {"op": f"sc,{key_str(k)},{c}", "sql": sql, "db": k[0], "touch": [k]}
         if kind == "dt":
@@ -276,6 +290,13 @@ def corpus() -> list[list[dict]]:
          S("cs,11.21.32,11.21.31,45/42,0", "create table t2 as select e, b from t1", [k2]), S("cl,11.21.33,11.21.31,0", "create table t3 clone t1", [(11, 21, 33)]),
          S("cv,11.21.34,11.21.31,45,0", "create view t4 as select e from t1", [(11, 21, 34)]), S("rt,11.21.31,35", "alter table t1 rename to t5", [k1, (11, 21, 35)]),
          S("rc,11.21.35,42,46", "alter table t5 rename column b to f", [(11, 21, 35)]), S("dc,11.21.35,46", "alter table t5 drop column f", [(11, 21, 35)])],
+        # no-op'd statements and USE SCHEMA between comments: nothing they do may touch the recorded metadata (neither of the table last
+        # commented on, nor of its namesake in the schema the connection has moved to); the bootstrap of the side tables re-runs
+        [S("ct,11.21.31,41:t10,1,0,-", "create table t1 (a varchar(10)) comment = 'c1'", [k1]), S("ct,11.22.31,41:t4,5,0,-", "create table s2.t1 (a varchar(4)) comment = 'c5'", [k3]),
+         S("sc,11.21.31,2", "comment on table t1 is 'c2'", [k1]), S("sc,11.21.31,3", "alter table t1 set comment = 'c3'", [k1]), S("nop", "set v1 = 5", [k1, k3]),
+         S("nop", "alter table t1 set tag tg1 = 'x'", [k1, k3]), S("nop", "create tag tg2", [k1, k3]), S("nop", "use schema s2", [k1, k3]), S("nop", "set v2 = 6", [k1, k3]),
+         S("nop", "alter table db1.s1.t1 cluster by (a)", [k1, k3]), S("nop", "create database if not exists db1", [k1, k3]), S("sc,11.22.31,10", "comment on table t1 is ''", [k3]),
+         S("nop", "alter table t1 alter a comment 'col'", [k1, k3]), S("ct,11.22.31,41:t6,10,1,-", "create or replace table t1 (a varchar(6)) comment = ''", [k3]), S("nop", "unset v1", [k1, k3])],
         # comment on a missing table is recorded and shows up on a later table of that name; other database
         [S("sc,12.21.31,6", "comment on table t1 is 'c6'", [(12, 21, 31)], db=12), S("ct,12.21.31,41:i,-,0,-", "create table t1 (a int)", [(12, 21, 31)], db=12),
          S("sc,12.21.31,7", "alter table db2.s1.t1 set comment = 'c7'", [(12, 21, 31)], db=12), S("dt,12.21.31", "drop table t1", [(12, 21, 31)], db=12)],
@@ -317,7 +338,8 @@ def _nid(name) -> str:
 def _observe_schema(conn, d: int, s: int, only=None, probes=None) -> dict:
     """surfaces of one schema, read through the connection whose current database is `d`.
     only=None: every listing and every object; only=[names]: information_schema.tables + those objects"""
-    D, S = NAME[d], NAME[s]
+    D, S = NAME[d], NAME[s]          # as reported / as string literals
+    QS = Q(s)                        # as written in SQL
     out = {"full": only is None}
 
     def rows(sql):
@@ -325,11 +347,11 @@ def _observe_schema(conn, d: int, s: int, only=None, probes=None) -> dict:
         cur.execute(sql)
         return cur, cur.fetchall()
     _, r = rows(f"select table_name, table_type, comment from information_schema.tables where table_catalog = '{D}' and table_schema = '{S}' order by table_name")
-    out["info_tables"] = sorted(f"{_nid(n)}:{'v' if t == 'VIEW' else 't'}:{'-' if c is None else str(c)[1:] if str(c).startswith('c') else '?' + str(c)}" for n, t, c in r)
+    out["info_tables"] = sorted(f"{_nid(n)}:{'v' if t == 'VIEW' else 't'}:{'-' if c is None else COMMENT_ID.get(c, '?' + str(c))}" for n, t, c in r)
     if only is None:
-        _, r = rows(f"show tables in schema {D}.{S}")
+        _, r = rows(f"show tables in schema {D}.{QS}")
         out["show_tables"] = sorted(f"{_nid(x[1])}:{'v' if x[2] == 'VIEW' else 't'}" + ("" if (x[3], x[4]) == (D, S) else f"!{x[3]}.{x[4]}") for x in r)
-        _, r = rows(f"show objects in schema {D}.{S}")
+        _, r = rows(f"show objects in schema {D}.{QS}")
         out["show_objects"] = sorted(f"{_nid(x[1])}:{'v' if x[2] == 'VIEW' else 't'}" + ("" if (x[3], x[4]) == (D, S) else f"!{x[3]}.{x[4]}") for x in r)
         _, r = rows(f"select table_name from information_schema.views where table_schema = '{S}'")
         out["info_views"] = sorted(_nid(x[0]) for x in r)
@@ -339,21 +361,22 @@ def _observe_schema(conn, d: int, s: int, only=None, probes=None) -> dict:
         if not nid.isdigit() or (only is not None and int(nid) not in only):
             continue
         N = NAME[int(nid)]
+        QN = Q(int(nid))
         try:
-            _, dr = rows(f"describe {'view' if kind == 'v' else 'table'} {D}.{S}.{N}")
+            _, dr = rows(f"describe {'view' if kind == 'v' else 'table'} {D}.{QS}.{QN}")
             desc = [f"{_nid(x[0])}:{_ty_describe(x[1])}:{x[2]}:{x[3]}" for x in dr]
             _, ir = rows("select column_name, data_type, character_maximum_length, character_octet_length, numeric_precision, numeric_scale, ordinal_position "
                          f"from information_schema.columns where table_catalog = '{D}' and table_schema = '{S}' and table_name = '{N}' order by ordinal_position")
             info = [f"{_nid(x[0])}:{_ty_info(*x[1:6])}" for x in ir]
             pos = [x[6] for x in ir]
-            cur, _ = rows(f"select * from {D}.{S}.{N}")
+            cur, _ = rows(f"select * from {D}.{QS}.{QN}")
             star = [f"{_nid(x.name)}:{DESC_CODE.get(x.type_code, '?' + str(x.type_code))}" for x in cur.description]
             objs[nid] = {"describe": desc, "info": info, "pos_ok": pos == list(range(1, len(pos) + 1)), "star": star}
             if probes is not None:
                 # ONE long-lived cursor per object re-executes the identical text after every statement touching the object and reads
                 # its description each time (nothing else is ever described on that cursor)
                 pc = probes.setdefault((d, s, nid), conn.cursor())
-                pc.execute(f"select * from {D}.{S}.{N}")
+                pc.execute(f"select * from {D}.{QS}.{QN}")
                 objs[nid]["star_probe"] = [f"{_nid(x.name)}:{DESC_CODE.get(x.type_code, '?' + str(x.type_code))}" for x in pc.description]
         except Exception as e:
             objs[nid] = {"error": f"{type(e).__name__}: {str(e)[:120]}"}
@@ -371,6 +394,7 @@ def real_history(ops: list[dict]) -> list[dict]:
         probes: dict = {}
         for d in DBS:
             conns[d].cursor().execute(f"create schema {NAME[d]}.S2")
+            conns[d].cursor().execute(f'create schema {NAME[d]}."sq"')
         for i, op in enumerate(ops):
             conn = conns[op["db"]]
             try:
@@ -410,8 +434,8 @@ def real_history(ops: list[dict]) -> list[dict]:
                         cur.execute(form)
                         spell[form] = sorted(f"{x[3]}.{x[1]}" for x in cur.fetchall() if str(x[1]).lower() != "information_schema")
                     for sc in SCHEMAS:
-                        S = NAME[sc]
-                        for form in (f"show tables in {D}.{S}", f'show tables in "{D}"."{S}"', f"show terse tables in schema {D}.{S}", f"show objects in {D}.{S}",
+                        S = Q(sc)
+                        for form in (f"show tables in {D}.{S}", f'show tables in "{D}"."{NAME[sc]}"', f"show terse tables in schema {D}.{S}", f"show objects in {D}.{S}",
                                      f'show objects in schema "{D}".{S}', f"show terse objects in {D}.{S}"):
                             cur = other.cursor()
                             cur.execute(form)
@@ -427,7 +451,7 @@ def real_history(ops: list[dict]) -> list[dict]:
                     D = NAME[d]
                     forms = ["show primary keys", "show primary keys in account", f"show primary keys in database {D}"]
                     for sc in SCHEMAS:
-                        S = NAME[sc]
+                        S = Q(sc)
                         forms += [f"show primary keys in schema {S}", f"show primary keys in schema {D}.{S}"]
                         if sc == 21:
                             forms += [f"show terse primary keys in schema {S}", f"show primary keys in {D}.{S}", f"show primary keys in table {D}.{S}.T6"]
@@ -439,6 +463,22 @@ def real_history(ops: list[dict]) -> list[dict]:
                         except Exception as e:
                             keys[f"[{D}] {form}"] = "err:" + type(e).__name__
                 obs["show_keys"] = keys
+                # database-qualified reads of information_schema from the connection of the OTHER database
+                xdb = {}
+                for d in DBS:
+                    other = conns[[x for x in DBS if x != d][0]]
+                    D = NAME[d]
+                    cur = other.cursor()
+                    cur.execute(f"select table_schema, table_name, column_name, character_maximum_length, data_type from {D}.information_schema.columns where table_catalog = '{D}' "
+                                "and table_schema not in ('information_schema', 'main')")
+                    # lengths are compared for TEXT columns only (a stale side-table row also shows on a column that is no longer text:
+                    # C09/stale-length-shown-for-non-text-column)
+                    xdb[f"columns:{d}"] = sorted(f"{d}.{_nid(a)}.{_nid(b)}:{_nid(c)}:{'-' if n is None or t != 'TEXT' else n}" for a, b, c, n, t in cur.fetchall())
+                    cur.execute(f"select table_schema, table_name, comment from {D}.information_schema.tables where table_catalog = '{D}' and table_schema not in ('information_schema', 'main')")
+                    xdb[f"tables:{d}"] = sorted(f"{d}.{_nid(a)}.{_nid(b)}:{'-' if c is None else COMMENT_ID.get(c, '?' + str(c))}" for a, b, c in cur.fetchall())
+                    cur.execute(f"select table_schema, table_name from {D}.information_schema.views")
+                    xdb[f"views:{d}"] = sorted(f"{d}.{_nid(a)}.{_nid(b)}" for a, b in cur.fetchall())
+                obs["xdb"] = xdb
                 cur = conns[11].cursor()
                 cur.execute("show tables")
                 obs["show_account"] = sorted(f"{x[3]}.{x[4]}.{x[1]}" for x in cur.fetchall())
@@ -467,6 +507,18 @@ def real_cross_db() -> dict:
         return out
 
 
+def real_stale_nontext() -> dict:
+    import fakesnow
+    import snowflake.connector
+    with fakesnow.patch():
+        c = snowflake.connector.connect(database="DB1", schema="S1")
+        cur = c.cursor()
+        cur.execute("create table t1 (a varchar(5))")
+        cur.execute("create or replace table t1 (a int)")
+        cur.execute("select data_type, character_maximum_length from information_schema.columns where table_schema = 'S1' and table_name = 'T1'")
+        return {"rows": [list(x) for x in cur.fetchall()]}
+
+
 def real_if_not_exists() -> dict:
     """CREATE TABLE IF NOT EXISTS on an existing table creates nothing; the metadata of the existing table must stay"""
     import fakesnow
@@ -485,7 +537,8 @@ def real_if_not_exists() -> dict:
 def _worker(shard):
     import fakesnow
     assert common.REPO in __import__("pathlib").Path(fakesnow.__file__).resolve().parents, fakesnow.__file__
-    return [real_cross_db() if h == "cross-db" else real_if_not_exists() if h == "if-not-exists" else real_history(h) for h in shard]
+    return [real_cross_db() if h == "cross-db" else real_if_not_exists() if h == "if-not-exists" else real_stale_nontext() if h == "stale-nontext" else real_history(h)
+            for h in shard]
 
 
 # ----------------------------------------------------------------------------------------------
@@ -609,7 +662,7 @@ def _check_history(chk, ops, real, reply) -> None:
                 toks = f.replace('"', "").split()
                 scope = toks[-1]
                 if " schemas " in f" {f} ":
-                    want_sp = [f"{scope}.S1", f"{scope}.S2"]
+                    want_sp = sorted(f"{scope}.{n_}" for n_ in SCHEMAS.values())
                 else:
                     D, S = scope.split(".") if "." in scope else (home, scope)
                     tables_only = "tables" in toks
@@ -619,11 +672,29 @@ def _check_history(chk, ops, real, reply) -> None:
                     chk.violation(f"`{f}`" + (f" issued from a connection in {home}" if home else " issued from a connection of the other database")
                                   + f" lists {got}, the live catalog has {want_sp}", {**case, "step": i}, broken="C09_listing (SHOW scope spellings)")
                     return
+            for what_, got in r.get("xdb", {}).items():
+                kind_, d_ = what_.split(":")
+                mine = {k: v for k, v in model.items() if k.startswith(d_ + ".")}
+                if kind_ == "columns":
+                    want_x = sorted(f"{k}:{c[0]}:{c[3] if c[1][0] == 't' else '-'}" for k, v in mine.items() for c in v["cols"])
+                elif kind_ == "views":
+                    want_x = sorted(k for k, v in mine.items() if v["kind"] == "v")
+                else:
+                    want_x = sorted(f"{k}:{v['ic']}" for k, v in mine.items())
+                if got == want_x:
+                    continue
+                what = (f"information_schema.{kind_} of {NAME[int(d_)]} read database-qualified from a connection of the other database gives {got}, "
+                        f"read from its own database it gives {want_x} (object[:column]:value, names as numbers)")
+                if kind_ == "tables" and [x.rsplit(":", 1)[0] for x in got] == [x.rsplit(":", 1)[0] for x in want_x] and all(x.endswith(":-") for x in got):
+                    chk.finding(KEY_XDB_COMMENT, what, {**case, "step": i})
+                else:
+                    chk.violation(what, {**case, "step": i}, broken="C09_surfaces (database-qualified information_schema reads)")
+                    return
             allpk = sorted(".".join(NAME[int(x)] for x in k.split(".")) + ":" + NAME[int(model[k]["pk"])] for k in allkeys if model[k].get("pk"))
             for form, got in r.get("show_keys", {}).items():
                 D = form[1:4]
                 f = form[6:]
-                toks = f.split()
+                toks = f.replace('"', "").split()
                 chk.count("show-primary-keys-forms")
                 if toks[-1] == "keys":                      # no scope: the current database
                     want_k, key = [x for x in allpk if x.startswith(D + ".")], None
@@ -658,7 +729,7 @@ def _check_history(chk, ops, real, reply) -> None:
                 else:
                     chk.violation(f"SHOW TABLES (account scope) lists {r['show_account']}, live tables are {want}", {**case, "step": i}, broken="C09_listing (account scope)")
                     return
-            if r["show_schemas"] != ["S1", "S2"] or r["info_databases"] != ["DB1", "DB2"]:
+            if r["show_schemas"] != sorted(SCHEMAS.values()) or r["info_databases"] != ["DB1", "DB2"]:
                 chk.violation(f"SHOW SCHEMAS IN DATABASE DB1 = {r['show_schemas']}, information_schema.databases = {r['info_databases']}", {**case, "step": i},
                               broken="C09_listing (schemas / databases)")
                 return
@@ -681,6 +752,16 @@ def _check_cross(chk, real) -> None:
         chk.violation(f"describe table db2.s1.t1 from a connection in DB1 shows {real.get('other')}", {"kind": "cross-db"}, broken="C09_surfaces")
 
 
+def _check_stale_nontext(chk, real) -> None:
+    chk.case(("stale-nontext",), nontrivial=False)
+    if real["rows"] == [["NUMBER", None]]:
+        return
+    if real["rows"] == [["NUMBER", 5]]:
+        chk.finding(KEY_STALE_NONTEXT, f"`create table t1 (a varchar(5)); create or replace table t1 (a int)`: information_schema.columns reports {real['rows']}", {"kind": "stale-nontext"})
+    else:
+        chk.violation(f"information_schema.columns of a NUMBER column that replaced a VARCHAR(5) column: {real['rows']}", {"kind": "stale-nontext"}, broken="C09_surfaces")
+
+
 def _check_ine(chk, real) -> None:
     chk.case(("if-not-exists",), nontrivial=False)
     if real == {"type": ["t10"], "comment": ["c1"]}:
@@ -695,7 +776,7 @@ def _check_ine(chk, real) -> None:
 
 def _histories(chk) -> list:
     rnd = random.Random(chk.seed)
-    n = 40 if chk.tier == "quick" else 250
+    n = 32 if chk.tier == "quick" else 250
     hs = corpus()
     for _ in range(n):
         hs.append(gen_history(rnd, rnd.randint(8, 30)))
@@ -707,7 +788,7 @@ def run(chk) -> None:
     chk.rule = ("DDL histories of 8-36 statements (11 statement kinds, 3 qualification levels, 14 column types) over 2 databases x 2 schemas x 5 object "
                 "names x 6 column names; after every statement every surface of the touched schema(s) is read (listings + per object DESCRIBE, "
                 "information_schema.columns, description of SELECT *), at the end all schemas, database and account scope.  non-trivial = history with >= 3 statements")
-    items = ["cross-db", "if-not-exists"] + hs
+    items = ["cross-db", "if-not-exists", "stale-nontext"] + hs
     shards = common.chunks(items, 16)
     reals = common.shard_map(_worker, shards)
     for shard, rs in zip(shards, reals):
@@ -717,6 +798,8 @@ def run(chk) -> None:
                 _check_cross(chk, r)
             elif h == "if-not-exists":
                 _check_ine(chk, r)
+            elif h == "stale-nontext":
+                _check_stale_nontext(chk, r)
         replies = common.batch(["meta\thist\t" + enc_list([o["op"] for o in h]) for h, _ in hist]) if hist else []
         for (h, r), reply in zip(hist, replies):
             _check_history(chk, h, r, reply)
@@ -733,6 +816,9 @@ def run(chk) -> None:
 
 
 def replay(chk, case) -> None:
+    if case.get("kind") == "stale-nontext":
+        _check_stale_nontext(chk, _worker([["stale-nontext"]][0])[0])
+        return
     if case.get("kind") == "if-not-exists":
         _check_ine(chk, _worker([["if-not-exists"]][0])[0])
         return
